@@ -125,6 +125,20 @@ type scn struct {
 	asz   int64 // appendSize argument (append only)
 }
 
+// retry variants ("writeR", "wreaderR"): the same backend first writes a sibling key (which puts the
+// partition directory into dirCache), the directory is then removed behind the backend's back, and
+// only then the procedure under test runs — its first create fails with ENOENT and it takes the
+// "directory was deleted externally" retry branch.
+func (s scn) retry() bool  { return strings.HasSuffix(s.proc, "R") }
+func (s scn) base() string { return strings.TrimSuffix(s.proc, "R") }
+
+func (s scn) failKey() string {
+	if s.retry() {
+		return "partial-file-under-final-name:retry-after-dir-removed:" + s.base()
+	}
+	return "partial-file-visible-at-final-path:" + s.proc
+}
+
 func lenStr(n int) string {
 	if n < 0 {
 		return "x"
@@ -143,14 +157,14 @@ func (s scn) setup(root string) {
 	if s.pre >= 0 {
 		must(os.WriteFile(filepath.Join(root, "d", "f"), genOld(s.pre), 0o600))
 	}
-	if s.part0 >= 0 && s.proc != "write" {
+	if s.part0 >= 0 && s.base() != "write" {
 		must(os.WriteFile(storage.VerifC08PartPath(filepath.Join(root, "d", "f")), genPart(s.part0), 0o600))
 	}
 }
 
 func (s scn) observe(root string) (string, string) {
 	final := fileState(filepath.Join(root, "d", "f"))
-	if s.proc == "write" {
+	if s.base() == "write" {
 		m, _ := filepath.Glob(filepath.Join(root, "d", ".arc-*.tmp"))
 		sort.Strings(m)
 		switch len(m) {
@@ -171,7 +185,7 @@ func (s scn) allowedFinal() (prev string, intended string) {
 	if s.pre >= 0 {
 		prev = stateOf(genOld(s.pre), true)
 	}
-	switch s.proc {
+	switch s.base() {
 	case "write", "wreader":
 		intended = stateOf(genData(s.n, s.seed), true)
 	case "append":
@@ -184,7 +198,23 @@ func (s scn) allowedFinal() (prev string, intended string) {
 
 func (s scn) call(b *storage.LocalBackend, rd io.Reader) error {
 	ctx := context.Background()
-	switch s.proc {
+	if s.retry() {
+		// populate dirCache through a sibling key, then remove the directory externally
+		one := genData(1, s.seed)
+		var err error
+		if s.base() == "write" {
+			err = b.Write(ctx, "d/g", one)
+		} else {
+			err = b.WriteReader(ctx, "d/g", plainReader{bytes.NewReader(one)}, 1)
+		}
+		if err != nil {
+			return err
+		}
+		if err := os.RemoveAll(filepath.Join(b.GetBasePath(), "d")); err != nil {
+			return err
+		}
+	}
+	switch s.base() {
 	case "write":
 		data, _ := io.ReadAll(rd)
 		return b.Write(ctx, key, data)
@@ -779,7 +809,7 @@ func main() {
 		f, st := s.observe(rt)
 		prev, intended := s.allowedFinal()
 		if f != prev && (intended == "" || f != intended) {
-			c.Fail("partial-file-visible-at-final-path:"+s.proc,
+			c.Fail(s.failKey(),
 				fmt.Sprintf("%s (in-process, reader failing after %d bytes) left the final path in state %s (previous %s, intended %s)", s.proc, failAfter, f, prev, intended),
 				"run "+s.fields())
 		}
@@ -823,6 +853,17 @@ func main() {
 			}
 		}
 	}
+	for _, n := range []int{1, 4096, 70000} {
+		for _, proc := range []string{"writeR", "wreaderR"} {
+			s := scn{proc, -1, -1, n, int(c.Seed) + n%7, 0}
+			runIn(s, -1)
+			if proc == "wreaderR" {
+				runIn(s, 0)
+				runIn(s, n/2)
+				runIn(s, n-1)
+			}
+		}
+	}
 	os.RemoveAll(inproc)
 
 	// ---- crash points (strace kill injection in a child process of this binary)
@@ -846,6 +887,10 @@ func main() {
 		scns = append(scns, scn{"write", pre, -1, n, int(c.Seed), 0},
 			scn{"wreader", pre, []int{-1, 7}[i%2], n, int(c.Seed), 0},
 			scn{"append", pre, 10, n, int(c.Seed), int64(n)})
+	}
+	// retry branch ("directory deleted externally") of Write and WriteReader, crashed at every syscall
+	for _, n := range []int{1, 4096, 70000} {
+		scns = append(scns, scn{"writeR", -1, -1, n, int(c.Seed), 0}, scn{"wreaderR", -1, -1, n, int(c.Seed), 0})
 	}
 	scns = append(scns, scn{"append", -1, -1, 5, int(c.Seed), 5}) // no staging file: must fail without touching anything
 	type pair struct {
@@ -909,7 +954,7 @@ func main() {
 			}
 			c.Tag(tag)
 			if o.final != prev && (intended == "" || o.final != intended) {
-				c.Fail("partial-file-visible-at-final-path:"+s.proc,
+				c.Fail(s.failKey(),
 					fmt.Sprintf("%s killed on entry of %s #%d left the final path in state %s (previous %s, intended %s; staging %s)", s.proc, p.sc, o.when, o.final, prev, intended, o.stage),
 					fmt.Sprintf("scenario `%s` (proc pre part0 n seed appendSize), SIGKILL at %s call #%d of the child", s.fields(), p.sc, o.when))
 			}
